@@ -157,6 +157,9 @@ class QRCode(Generic[GenericImage]):
         """
         if fit or (self.version is None):
             self.best_fit(start=self.version)
+        # The cached codewords depend on the version and the error correction
+        # level, either of which may have changed since the last compile.
+        self.data_cache = None
         if self.mask_pattern is None:
             self.makeImpl(False, self.best_mask_pattern())
         else:
